@@ -25,6 +25,24 @@ CLAIMED = {
         "Trusted: gmodel::GModel (acceptable-answer sets, spelling), model::neighbour. max_path_beam is only required to return a valid walk (it may end on a repeated node by design).",
         "DESIGN.md section 6, C03",
     ),
+    "C05": (
+        "seeded proptest against a string-level grouping model; pass count forced through the verif_hooks feature",
+        "Generated read sets with labels and arbitrary boundary extensions, five read containers, both strandedness values, report_all on/off, CountFilter/CountFilterSet for n from 0 to above the maximum count plus a recording summarizer that exposes grouping order; the memory-unit hook makes 1..256 bucket passes happen on small inputs and the pass counter proves it. Result map (iteration and get, present and absent k-mers), all_kmers and summaries are compared with the model for every pass count.",
+        "Trusted: model::build_table; the add-only hook (thread-local override of the bytes-per-unit constant and a pass counter). Count saturation (>65535 observations) has a dedicated job.",
+        "DESIGN.md section 6, C05",
+    ),
+    "C06": (
+        "seeded proptest, metamorphic relation (reverse-complement any subset of reads) + stranded string model",
+        "Unstranded: table and graph (partition, payloads, adjacency set) are invariant under reverse-complementing any generated subset of reads, for four pipeline variants, and every key is the string minimum of the two strands. Stranded: table keys and graph adjacencies equal the forward-strand model exactly and no edge reports a flip.",
+        "Trusted: the metamorphic relation itself needs no model; the stranded half uses model::build_table / read_kp1s. The 2^n subsets are sampled (32-bit mask).",
+        "DESIGN.md section 6, C06",
+    ),
+    "C09": (
+        "seeded proptest with a constructive graph splitter; union-find partition model; metamorphic idempotence",
+        "Input graphs: compressed, one-k-mer-per-node, randomly cut/re-oriented/shuffled valid partial compressions, combine of sharded sub-assemblies, colour-compressed graphs; censor lists None/empty/subset(unsorted, duplicates)/all. Result must be exactly the maximal unbranched paths of the surviving adjacencies with folded payloads, all extensions resolving, adjacency set exact; re-compression is idempotent.",
+        "Trusted: model::expected_partition, the splitter (props/c09.rs::split_nodes) producing only valid graphs (each sub-node is a run of consecutive k-mers of a compressed node).",
+        "DESIGN.md section 6, C09",
+    ),
     "C07": (
         "seeded proptest, validity-predicate oracle over plain strings",
         "Generated search (sequences x k x p-mer type x score function x container) against an interval validity predicate "
